@@ -44,13 +44,23 @@ class SegBytes:
 class SegBytesIO:
     """io.BytesIO(read/readline) over segments."""
 
-    def __init__(self, p):
+    def __init__(self, p=b''):
         if isinstance(p, SegBytes):
             self.segs = list(p.segments)
         else:
-            self.segs = [p]
+            self.segs = [p] if len(p) else []
         self.i = 0          # current segment
         self.off = 0        # offset inside it
+
+    def write(self, b):
+        self.segs.append(b)
+        return len(b)
+
+    def getvalue(self):
+        return SegBytes(list(self.segs))
+
+    def tell(self):
+        return sum(len(x) for x in self.segs[:self.i]) + self.off
 
     def read(self, n=-1):
         out = None
